@@ -6,6 +6,7 @@ import Mathlib.Tactic.Ring
 import Mathlib.Tactic.Linarith
 import Mathlib.Tactic.FieldSimp
 import Mathlib.Algebra.Order.Field.Rat
+import CBV.Lemmas.C08
 
 namespace CBV.C16
 
@@ -188,5 +189,57 @@ theorem polyLenD_telescope (d : α → α → Rat) (f : Rat → α) (T : Rat) : 
       have h0 := h x y (by simp)
       simp only [List.map_cons, polyLenD] at ih ⊢
       rw [ih, h0]; ring
+
+/-! ### projection to a segment -/
+
+open CBV.C08 (Vec cauchy_schwarz) in
+theorem dist2_lerp (p0 p1 q : V) (lam : Rat) :
+    dist2 (lerpV p0 p1 lam) q = Vec.nsq (Vec.sub p1 p0) * lam * lam
+      - 2 * Vec.dot (Vec.sub q p0) (Vec.sub p1 p0) * lam + Vec.nsq (Vec.sub q p0) := by
+  simp only [dist2, lerpV, Vec.nsq, Vec.dot, Vec.sub]; ring
+
+open CBV.C08 (Vec) in
+theorem nsq_nonneg (v : V) : 0 ≤ Vec.nsq v := by
+  simp only [Vec.nsq, Vec.dot]
+  have := mul_self_nonneg v.x
+  have := mul_self_nonneg v.y
+  have := mul_self_nonneg v.z
+  linarith
+
+open CBV.C08 (Vec cauchy_schwarz) in
+/-- the clipped projection minimises the distance over the whole segment -/
+theorem seg_opt (p0 p1 q : V) (lam : Rat) (h0 : 0 ≤ lam) (h1 : lam ≤ 1) :
+    segDist2 p0 p1 q ≤ dist2 (lerpV p0 p1 lam) q := by
+  unfold segDist2
+  rw [dist2_lerp, dist2_lerp]
+  unfold segRatio
+  simp only []
+  set A := Vec.nsq (Vec.sub p1 p0) with hA
+  set B := Vec.dot (Vec.sub q p0) (Vec.sub p1 p0) with hB
+  set W := Vec.nsq (Vec.sub q p0)
+  have hA0 : 0 ≤ A := nsq_nonneg _
+  by_cases hpos : 0 < A
+  · rw [if_pos hpos]
+    obtain ⟨x, hx⟩ : ∃ x, x = B / A := ⟨_, rfl⟩
+    have hBx : B = x * A := by rw [hx]; field_simp
+    rw [← hx]
+    unfold clip01
+    split
+    · rename_i hneg
+      have : x * A ≤ 0 := by nlinarith
+      nlinarith [mul_nonneg hA0 (mul_nonneg h0 h0), mul_nonneg h0 (neg_nonneg.mpr this)]
+    · split
+      · rename_i hbig
+        have h2 : A * (1 - x) ≤ 0 := by nlinarith
+        nlinarith [mul_nonneg (sub_nonneg.mpr h1) (neg_nonneg.mpr h2), mul_nonneg hA0 (mul_nonneg (sub_nonneg.mpr h1) (sub_nonneg.mpr h1))]
+      · have : 0 ≤ A * ((lam - x) * (lam - x)) := mul_nonneg hA0 (mul_self_nonneg _)
+        nlinarith
+  · have hAz : A = 0 := le_antisymm (not_lt.mp hpos) hA0
+    have hcs := cauchy_schwarz (Vec.sub q p0) (Vec.sub p1 p0)
+    rw [← hB, ← hA, hAz] at hcs
+    have hBz : B = 0 := by
+      have : B * B ≤ 0 := by simpa using hcs
+      nlinarith [mul_self_nonneg B]
+    rw [hAz, hBz]; simp
 
 end CBV.C16
